@@ -57,7 +57,12 @@ def _layout(x, layout):
     return y
 
 
-def entries(seed):
+class Table(dict):
+    """driver table; .premade holds the model objects that were fitted while building it."""
+    premade = None
+
+
+def entries(seed, premade=None):
     """name -> builder(layout) returning (callable taking the argument list, [array arguments])."""
     d = impl.dist()
     from pb_bss.extraction import beamformer as bf, beamformer_wrapper as bw, mask_module as mm
@@ -92,7 +97,7 @@ def entries(seed):
     oimg = r.standard_normal((K, K, 64))
     onz = r.standard_normal((K, 64))
     sig = r.standard_normal((2, 64))
-    E_ = {}
+    E_ = Table()
 
     def reg(name, fn, *arrays, seeded=False, state=None):
         E_[name] = (fn, arrays, seeded, state)
@@ -130,7 +135,9 @@ def entries(seed):
             reg(f'{nm}.{method}', mk_fit(fac, method, integ=True), y, emb, init, sal)
         reg(f'{nm}.fit[inline_pa]', mk_fit(fac, 'fit', integ=True, extra=dict(inline_permutation_alignment=True)),
             y, emb, init, sal)
-    models = {
+    # fitted models that the predict entries evaluate: fitted here, or handed over (unpickled) when the table is
+    # built in a pristine process that must not have run any trainer before the entry under test
+    models = premade['models'] if premade else {
         'CACGMM': d.CACGMMTrainer().fit(y, initialization=init, iterations=2),
         'CWMM': d.CWMMTrainer().fit(y, initialization=init, iterations=2),
         'CBMM': d.CBMMTrainer().fit(y, initialization=init, iterations=2),
@@ -152,8 +159,8 @@ def entries(seed):
         reg(f'CBMM[{tag}].predict', (lambda cb: lambda args: cb.predict(args[0]))(cb), y, state=cb)
     reg('CACGMM.predict[mask]', lambda args: models['CACGMM'].predict(args[0], source_activity_mask=args[1]), y, msk)
     reg('CACGMM.log_likelihood', lambda args: models['CACGMM'].log_likelihood(args[0]), y)
-    gm = d.GCACGMMTrainer().fit(y, emb, initialization=init, iterations=2)
-    vm = d.VMFCACGMMTrainer().fit(y, emb, initialization=init, iterations=2)
+    gm = premade['gm'] if premade else d.GCACGMMTrainer().fit(y, emb, initialization=init, iterations=2)
+    vm = premade['vm'] if premade else d.VMFCACGMMTrainer().fit(y, emb, initialization=init, iterations=2)
     reg('GCACGMM.predict', lambda args: gm.predict(args[0], args[1]), y, emb)
     reg('VMFCACGMM.predict', lambda args: vm.predict(args[0], args[1]), y, emb)
     # ---- single distributions
@@ -163,7 +170,8 @@ def entries(seed):
         reg(f'ComplexAngularCentralGaussian.from_covariance[{norm}]',
             (lambda norm: lambda args: d.ComplexAngularCentralGaussian.from_covariance(
                 args[0], eigenvalue_floor=1e-10, covariance_norm=norm))(norm), cov)
-    cacg = d.ComplexAngularCentralGaussian.from_covariance(cov.copy())
+    cacg = premade['cacg'] if premade else d.ComplexAngularCentralGaussian.from_covariance(cov.copy())
+    E_.premade = dict(models=models, gm=gm, vm=vm, cacg=cacg)
     reg('ComplexAngularCentralGaussian.log_pdf', lambda args: cacg.log_pdf(args[0]), y)
     reg('ComplexAngularCentralGaussianTrainer.fit', lambda args: d.ComplexAngularCentralGaussianTrainer().fit(args[0], iterations=3), y)
     reg('ComplexWatsonTrainer.fit', lambda args: d.ComplexWatsonTrainer().fit(args[0], saliency=args[1]), y, sal)
@@ -257,6 +265,36 @@ def entries(seed):
     for fn in ('uniform_normalized', 'dirichlet_uniform', 'one_hot'):
         reg(f'iid.{fn}', (lambda fn: lambda args: getattr(iid, fn)(args[0], 3))(fn), y, seeded=True)
     reg('deterministic.flag', lambda args: deterministic.flag(args[0], 3, permutation_free=True, minimum=0.1), y)
+    # ---- the same functions with OTHER options / sizes (for the call-sequence exploration: a result that is
+    #      memoised under an incomplete key shows up when two configurations of one function alternate)
+    src2 = np.ascontiguousarray(np.moveaxis(src, 0, 1))          # (D, K, F, T): source axis 1, sensor axis 0
+    reg('ideal_binary_mask[axes 1,0]', lambda args: mm.ideal_binary_mask(args[0], source_axis=1, sensor_axis=0), src2)
+    reg('wiener_like_mask[axes 1,0]', lambda args: mm.wiener_like_mask(args[0], source_axis=1, sensor_axis=0), src2)
+    reg('ideal_binary_mask[axis -1]', lambda args: mm.ideal_binary_mask(args[0], source_axis=-1), src[0, 0].real + 0j)
+    reg('quantile_mask[axis -1]', lambda args: mm.quantile_mask(args[0], quantile=(0.2, -0.8), axis=-1), src[0, 0])
+    reg('lorenz_mask[axis -1]', lambda args: mm.lorenz_mask(args[0], axis=-1, lorenz_fraction=0.9), src[0, 0])
+    reg('get_wmwf_vector[ref 1]', lambda args: bf.get_wmwf_vector(args[0], args[1], reference_channel=1), Pxx, Pnn)
+    reg('get_wmwf_vector[ref 2, mu 0.5]', lambda args: bf.get_wmwf_vector(args[0], args[1], reference_channel=2,
+                                                                            distortion_weight=0.5), Pxx, Pnn)
+    reg('get_mvdr_vector_souden[ref 1]', lambda args: bf.get_mvdr_vector_souden(args[0], args[1], ref_channel=1), Pxx, Pnn)
+    reg('get_pca_vector[eigenvalue]', lambda args: bf.get_pca_vector(args[0], scaling='eigenvalue'), Pxx)
+    y2 = A.cnormal(r, (F, T, 2))
+    reg('ComplexWatsonTrainer.fit[D=2]', lambda args: d.ComplexWatsonTrainer().fit(args[0]), y2)
+    reg('ComplexWatsonTrainer.fit[max 50]', lambda args: d.ComplexWatsonTrainer(max_concentration=50).fit(args[0]),
+        y[:, :1] + 0.02 * y)
+    reg('CWMMTrainer.fit[max 5]', lambda args: d.CWMMTrainer(max_concentration=5).fit(
+        args[0], initialization=args[1], iterations=2), y[:, :1] + 0.02 * y, init)
+    reg('VonMisesFisherTrainer.fit[bounds]', lambda args: d.VonMisesFisherTrainer().fit(
+        args[0], min_concentration=2.0, max_concentration=5.0), yr[:, :1] + 0.02 * yr)
+    kft5 = act[:, None, :] * (1 + 0.05 * r.uniform(size=(K, 5, T)))
+    kft5[:, 3] = kft5[::-1, 3]
+    reg('DHTV[F=5].__call__', lambda args: pa.DHTVPermutationAlignment(
+        stft_size=8, segment_start=1, segment_width=2, segment_shift=1, main_iterations=3, sub_iterations=2)(args[0]), kft5)
+    reg('Oracle[cos].__call__[other reference]', lambda args: pa.OraclePermutationAlignment('cos', 'greedy')(
+        args[0], args[1]), kft[:, ::-1], kft_ref[:, ::-1])
+    reg('get_power_spectral_density_matrix[dims]', lambda args: bf.get_power_spectral_density_matrix(
+        args[0], args[1], sensor_dim=1, source_dim=1, time_dim=0), np.ascontiguousarray(X[0].T),
+        np.ascontiguousarray(tfmask[0].T))
     return E_
 
 
@@ -319,6 +357,100 @@ def run_purity(key):
         return viol(f'{name}: repeating the call (same arguments{", same NumPy seed" if seeded else ""}) gives a '
                     f'different result')
     return ok(outcome=hashlib.sha1(results[0]).hexdigest()[:12], evals=2)
+
+
+def isolated_result(name, seed, premade):
+    """result arrays of one entry evaluated in a pristine python process: no library function was called before
+    it (the fitted models that predict entries need are handed over pickled instead of being fitted there)."""
+    code = (
+        "import sys, pickle, numpy as np\n"
+        "sys.path.insert(0, %r); sys.path.insert(1, %r); sys.path.append(%r)\n"
+        "from mc.props import c20\n"
+        "premade = pickle.loads(sys.stdin.buffer.read())\n"
+        "table = c20.entries(%d, premade=premade)\n"
+        "sys.stdout.buffer.write(pickle.dumps(c20.call_entry(%r, %d, table)))\n"
+    ) % (REPO, HERE, os.path.join(HERE, '_vendor'), seed, name, seed)
+    env = dict(os.environ, PYTHONWARNINGS='ignore')
+    p_ = subprocess.run([sys.executable, '-c', code], input=pickle.dumps(premade), capture_output=True, env=env,
+                        timeout=600)
+    if p_.returncode != 0:
+        raise HarnessError('isolated evaluation failed: ' + p_.stderr.decode()[-600:])
+    return pickle.loads(p_.stdout)
+
+
+def _flatten(res):
+    """arrays of a result (arrays, scalars, dataclass models, tuples / lists / dicts of those)."""
+    out = {}
+
+    def walk(prefix, o):
+        if hasattr(o, '__dataclass_fields__'):
+            for k in o.__dataclass_fields__:
+                walk(prefix + k + '.', getattr(o, k))
+        elif isinstance(o, (tuple, list)):
+            for i, v in enumerate(o):
+                walk(prefix + str(i) + '.', v)
+        elif isinstance(o, dict):
+            for k, v in sorted(o.items()):
+                walk(prefix + str(k) + '.', v)
+        elif isinstance(o, np.ndarray) or np.isscalar(o):
+            out[prefix] = np.asarray(o)
+    walk('', res)
+    return out
+
+
+def call_entry(name, seed, table=None):
+    fn, arrays, seeded, _ = (table or entries(seed))[name]
+    args = [_layout(a, 'readonly') for a in arrays]
+    if seeded:
+        np.random.seed(1234)
+    try:
+        with np.errstate(all='ignore'):
+            return ('ok', _flatten(fn(list(args))))
+    except NotImplementedError:
+        return ('not_implemented', {})
+    except Exception as e:  # noqa
+        return ('raised', {'type': np.asarray(type(e).__name__)})
+
+
+def same_group(a, b):
+    """entries that exercise the same function / class (ignoring the bracketed configuration)."""
+    base = lambda n: n.split('[')[0].split('.')[0].replace('Trainer', '')   # noqa: E731
+    return base(a) == base(b)
+
+
+def run_sequence(key):
+    """history independence at the level of single calls: the result of entry X after any other entry Y was
+    called in the same process equals the result of X in a pristine process (depth-2 histories Y;X over the
+    entry alphabet, all Y in the thorough tier, the entries of the same function / class and a fixed cross
+    section of the others in the quick tier)."""
+    name, seed, scope = key['name'], key['seed'], key['scope']
+    table = entries(seed)
+    want = isolated_result(name, seed, table.premade)
+    if want[0] == 'not_implemented':
+        return trivial('documented NotImplementedError')
+    names = sorted(table)
+    others = [n for n in names if scope == 'all' or same_group(n, name) or names.index(n) % 9 == 0]
+    n = 0
+    for other in others:
+        call_entry(other, seed, table)
+        got = call_entry(name, seed, table)
+        if got[0] != want[0]:
+            return viol(f'{name} after {other}: {got[0]} (in a pristine process: {want[0]})')
+        if set(got[1]) != set(want[1]):
+            return viol(f'{name} after {other}: result fields {sorted(got[1])} != {sorted(want[1])}')
+        for k_ in want[1]:
+            a, b = np.asarray(got[1][k_]), np.asarray(want[1][k_])
+            if a.shape != b.shape:
+                return viol(f'{name} after {other}: {k_} shape {a.shape} != {b.shape} of the pristine process')
+            if a.dtype.kind in 'fc':
+                bad = tol.mismatch(a, b, 1e-9, what=f'{name} after {other} vs pristine process: {k_}')
+                if bad:
+                    return viol(bad)
+            elif not np.array_equal(a, b):
+                return viol(f'{name} after {other}: {k_} differs from the pristine process')
+        n += 1
+    return ok(outcome=hashlib.sha1(b''.join(np.ascontiguousarray(v).tobytes() for v in want[1].values())).hexdigest()[:12],
+              evals=2 * n + 1, states=n + 1, transitions=2 * n)
 
 
 def run_coverage(key):
@@ -756,6 +888,13 @@ def subchecks(tier, seed):
     subs.append(Sub('purity_and_repeatability', ('name', 'layout', 'seed'), purity_cases, run_purity,
                     bound=dict(entry_points=len(names), layouts=['readonly', 'colmajor_writeable'])))
     subs.append(Sub('public_names_covered', ('seed',), lambda: [(seed,)], run_coverage, min_outcomes=1))
+
+    def seq_cases():
+        for name in names:
+            yield (name, 'all' if thorough else 'group', seed)
+    subs.append(Sub('call_sequences', ('name', 'scope', 'seed'), seq_cases, run_sequence,
+                    bound=dict(entry_points=len(names), histories='Y;X for all ordered pairs (thorough) / Y in the same '
+                               'function group or every 9th entry (quick)', oracle='X evaluated in a pristine process')))
 
     def hist_cases():
         for cfg in range(len(TRAINER_CONFIGS)):
